@@ -81,6 +81,7 @@ func crashSafe(id string, raw func(string) string) func(string) string {
 				_ = cmd.Process.Kill()
 				_ = cmd.Wait()
 				cmd = nil
+				crashes++
 				return "CRASH"
 			}
 			return r.s[:len(r.s)-1]
